@@ -1495,9 +1495,10 @@ THEOREMS = [
     (_P6, 'EAO.C06.capacity_outside_ramps', 'outside the ramps capacity as in the profile-free case'),
     (_P6, 'EAO.C06.init_ramp_bounds', 'a unit in its start ramp at the beginning (0 < tar < S) follows the profile from position tar'),
     (_P6, 'EAO.C06.start_shut_flag', 'with shutdown variables: on_{t+1} - on_t = start_{t+1} - shut_{t+1} (equality)'),
-    (_P6, 'EAO.C06.start_exact', 'with shutdown variables a start is flagged exactly at off-to-on transitions (all steps but the last)'),
+    (_P6, 'EAO.C06.start_exact', 'with shutdown variables a start is flagged exactly at off-to-on transitions (every step t+1 < T, the last one included since the repair e7aae05)'),
     (_P6, 'EAO.C06.shutdown_exact', 'and a shutdown exactly at on-to-off transitions'),
-    (_P6, 'EAO.C06.last_step_flags_not_exclusive', 'witness: at the last step start and shutdown may both be flagged (exclusion rows stop one step early)'),
+    (_P6, 'EAO.C06.flags_exclusive', 'start and shutdown flag exclude each other at every step, the last one included'),
+    (_P6, 'EAO.C06.last_step_witness_now_rejected', 'the former witness (start and shutdown both flagged at the last step while the unit stays on; repaired in /repo, e7aae05) is infeasible for the repaired rows, the point with exact flags is feasible'),
     (_P6, 'EAO.C06.ramp_steps_outside_ramps', 'ramp rows outside the start / shutdown ramps read as in the profile-free case'),
     (_P6, 'EAO.C06.profile_precedence_witness', 'kernel-evaluated instance: dispatch below min_cap during the start ramp is feasible, above the profile bound is not'),
 ]
@@ -1521,7 +1522,7 @@ THEOREMS_C08 = [
 ]
 PARTIAL = ['with start/shutdown ramp profiles the on/off-pattern theorem (commit_rows_iff_spec for the rows WITH shutdown variables and the minimum runtime increased by the ramp times), the reading of the HEAT profile rows, the relaxed ramp rows with several flags at once and properties of _convert_ramp (interpolation / averaging) are modelled and covered by the exact row correspondence but have no theorem; '
            'the precedence of a start ramp profile over the general ramp holds in the generated rows (and in the model, which follows them) only for the steps t >= 1 of a start INSIDE the horizon: the first-step row relative to the last dispatch is never relaxed (known finding F-06i) and the rows of a start ramp begun before the horizon are not relaxed either (known finding F-06h: the relaxing branch is unreachable); the statement-level probe chp.profile_ramp reproduces both on the real code; '
-           'the statement "start flagged exactly at off-to-on transitions" holds without shutdown variables only as start >= transition (known finding F-06b: spurious starts are feasible), with shutdown variables exactly for all steps but the last (last_step_flags_not_exclusive)']
+           'the statement "start flagged exactly at off-to-on transitions" holds without shutdown variables only as start >= transition (known finding F-06b: spurious starts are feasible), with shutdown variables exactly at every step (EAO.C06P.flag_rows_iff; the last-step exception was repaired in /repo, e7aae05)']
 MODELLED = ['CHPAsset / Plant with and without start/shutdown ramp profiles incl. heat variants and _convert_ramp; CHPAsset_with_min_load_costs; costs_only of all three; empty windows']
 
 
